@@ -6,22 +6,10 @@
   of the source impose (a tree holds fewer than 2^28 frames, class ids have 3 bits).
 -/
 import LLFreeV.Gen.Tree
-import LLFreeV.Gen.Local
-import LLFreeV.Gen.Huge
-import LLFreeV.Gen.Policy
-import LLFreeV.Model.Policies
-import LLFreeV.Model.Lower
 import LLFreeV.Model.Trees
-import LLFreeV.Model.Locals
+import LLFreeV.Proofs.GenSim
 namespace LLFree.GenTree
 open LLFree LLFree.Gen.T
-
-/-- outcomes agree up to the panic message -/
-def Sim {β : Type} : Upd β → Upd β → Prop
-  | .skip, .skip => True
-  | .set a, .set b => a = b
-  | .panic _, .panic _ => True
-  | _, _ => False
 
 def ofR : R Tree → Upd Tree
   | .ok t => .set t
@@ -36,10 +24,6 @@ def opOf : Option Gen.T.Op → Option Tree.Op
   | none => none
   | some .online => some .online
   | some .offline => some .offline
-
-@[simp] theorem sim_skip {β : Type} : Sim (.skip : Upd β) .skip := trivial
-@[simp] theorem sim_set {β : Type} (a b : β) : Sim (.set a) (.set b) ↔ a = b := Iff.rfl
-@[simp] theorem sim_panic {β : Type} (s t : String) : Sim (.panic s : Upd β) (.panic t) := trivial
 
 theorem withFree_ok (self : Tree) (v : Nat) (h : v < 2 ^ 28) : withFree self v = .ok { self with free := v } := by
   unfold withFree; rw [if_pos h]; rfl
@@ -196,142 +180,5 @@ theorem change_eq (self : Tree) (mcls : Option Nat) (mfree : Nat) (ccls : Option
     by_cases hm : mk = self.cls
     · chg_body
     · simp [h1, h3, hm, ofRO, pure, Except.pure]
-
-/-! ### local reservations (`impl LocalTree`, `Gen/Local.lean`) -/
-section
-open LLFree.Gen.L
-
-def ofRL : Gen.L.R LTree → Upd LTree
-  | .ok t => .set t
-  | .error s => .panic s
-
-def ofROL : Gen.L.R (Option LTree) → Upd LTree
-  | .ok (some t) => .set t
-  | .ok none => .skip
-  | .error s => .panic s
-
-/-- `LocalTree::with` -/
-theorem lwith_eq (row free : Nat) : Sim (ofRL (Gen.L.with' row free)) (LTree.with row free) := by
-  unfold Gen.L.with' LTree.with
-  by_cases hr : row < 2 ^ 44
-  · have hr' : ¬ row ≥ 2 ^ 44 := by omega
-    by_cases hf : free < 2 ^ 19
-    · have hf' : ¬ free ≥ 2 ^ 19 := by omega
-      simp [hr, hf, hr', hf', Gen.L.withRow, Gen.L.withFree, Gen.L.withPresent, LTree.zero, ofRL, bind, Except.bind, pure, Except.pure]
-    · have hf' : free ≥ 2 ^ 19 := by omega
-      simp [hr, hf, hr', hf', Gen.L.withRow, Gen.L.withFree, Gen.L.withPresent, LTree.zero, ofRL, bind, Except.bind, pure, Except.pure,
-        throw, throwThe, MonadExceptOf.throw]
-  · have hr' : row ≥ 2 ^ 44 := by omega
-    simp [hr, hr', Gen.L.withRow, LTree.zero, ofRL, bind, Except.bind, pure, Except.pure, throw, throwThe, MonadExceptOf.throw]
-
-/-- `LocalTree::none` -/
-theorem lnone_eq : Gen.L.none' = .ok LTree.none := rfl
-
-/-- `LocalTree::get` -/
-theorem lget_eq (tr : Nat) (self : LTree) (tree : Option Nat) (free : Nat) (hf : self.free < 2 ^ 19) :
-    Sim (ofROL (Gen.L.get tr self tree free)) (Upd.ofOption (LTree.get tr self tree free)) := by
-  unfold Gen.L.get LTree.get
-  have hw : self.free - free < 2 ^ 19 := by omega
-  cases hp : self.present
-  · simp [ofROL, Upd.ofOption, pure, Except.pure]
-  · cases tree with
-    | none =>
-      by_cases hge : free ≤ self.free <;>
-        simp [hp, hge, hw, Gen.L.withFree, ofROL, Upd.ofOption, bind, Except.bind, pure, Except.pure]
-    | some i =>
-      by_cases hi : self.row / tr = i
-      · by_cases hge : free ≤ self.free <;>
-          simp [hp, hi, hge, hw, Gen.L.withFree, ofROL, Upd.ofOption, bind, Except.bind, pure, Except.pure]
-      · simp [hp, hi, ofROL, Upd.ofOption, pure, Except.pure]
-
-/-- `LocalTree::put` -/
-theorem lput_eq (tr tf : Nat) (self : LTree) (tree free : Nat) (htf : tf < 2 ^ 19) :
-    Sim (ofROL (Gen.L.put tr tf self tree free)) (LTree.put tr tf self tree free) := by
-  unfold Gen.L.put LTree.put
-  cases hp : self.present
-  · simp [ofROL, pure, Except.pure]
-  · by_cases hi : self.row / tr = tree
-    · by_cases hle : self.free + free ≤ tf
-      · have h1 : ¬ self.free + free > tf := by omega
-        have h2 : self.free + free < 2 ^ 19 := by omega
-        simp [hp, hi, hle, h1, h2, Gen.L.withFree, ofROL, bind, Except.bind, pure, Except.pure]
-      · have h1 : self.free + free > tf := by omega
-        simp [hp, hi, hle, h1, ofROL, bind, Except.bind, pure, Except.pure, throw, throwThe, MonadExceptOf.throw]
-    · simp [hp, hi, ofROL, pure, Except.pure]
-
-/-- `LocalTree::set_start` -/
-theorem lsetStart_eq (tr : Nat) (self : LTree) (row : Nat) :
-    Sim (ofROL (Gen.L.setStart tr self row)) (LTree.setStart tr self row) := by
-  unfold Gen.L.setStart LTree.setStart
-  by_cases hc : (self.present && self.row / tr == row / tr && self.row != row) = true
-  · by_cases hr : row < 2 ^ 44
-    · have : ¬ row ≥ 2 ^ 44 := by omega
-      simp [hc, hr, this, Gen.L.withRow, ofROL, bind, Except.bind, pure, Except.pure]
-    · have : row ≥ 2 ^ 44 := by omega
-      simp [hc, hr, this, Gen.L.withRow, ofROL, bind, Except.bind, pure, Except.pure, throw, throwThe, MonadExceptOf.throw]
-  · simp [hc, ofROL, pure, Except.pure]
-
-end
-
-/-! ### table entries of the lower allocator (`impl HugeEntry`, `Gen/Huge.lean`) -/
-section
-open LLFree.Gen.H
-
-def ofRON : Gen.H.R (Option Nat) → Upd Nat
-  | .ok (some t) => .set t
-  | .ok none => .skip
-  | .error s => .panic s
-
-theorem hnewHuge_eq : Gen.H.newHuge = .ok HugeMarker := rfl
-theorem hnewWith_eq (f : Nat) : Gen.H.newWith f = .ok (Huge.newWith f) := by
-  unfold Gen.H.newWith Gen.H.withCount Huge.newWith
-  have : f % 2 ^ 16 < 2 ^ 16 := Nat.mod_lt _ (by omega)
-  simp [this, bind, Except.bind, pure, Except.pure]
-theorem hhuge_eq (e : Nat) : Gen.H.huge e = .ok (Huge.isHuge e) := rfl
-theorem hfree_eq (e : Nat) : Gen.H.free e = .ok (Huge.free e) := by
-  unfold Gen.H.free Huge.free
-  rw [hhuge_eq]
-  cases Huge.isHuge e <;> rfl
-
-/-- `HugeEntry::dec` -/
-theorem hdec_eq (e n : Nat) : Sim (ofRON (Gen.H.dec e n)) (Upd.ofOption (Huge.dec e n)) := by
-  unfold Gen.H.dec Huge.dec
-  simp only [hhuge_eq, hfree_eq, hnewWith_eq]
-  cases hh : Huge.isHuge e
-  · by_cases hge : n ≤ Huge.free e
-    · simp [hge, csub, hnewWith_eq, ofRON, Upd.ofOption, bind, Except.bind, pure, Except.pure]
-    · simp [hge, ofRON, Upd.ofOption, bind, Except.bind, pure, Except.pure]
-  · simp [ofRON, Upd.ofOption, bind, Except.bind, pure, Except.pure]
-
-/-- `HugeEntry::inc` (the source evaluates `Bitfield::LEN - num_frames` only for an entry that is not
-    a marker; the model traps on `n > len` regardless — callers pass `n ≤ len`) -/
-theorem hinc_eq (len e n : Nat) (hn : n ≤ len) : Sim (ofRON (Gen.H.inc len e n)) (Huge.inc len e n) := by
-  unfold Gen.H.inc Huge.inc
-  have hn' : ¬ n > len := by omega
-  simp only [hhuge_eq, hfree_eq]
-  cases hh : Huge.isHuge e
-  · by_cases hle : Huge.free e ≤ len - n
-    · simp [hn, hn', hle, csub, hnewWith_eq, ofRON, bind, Except.bind, pure, Except.pure]
-    · simp [hn, hn', hle, csub, ofRON, bind, Except.bind, pure, Except.pure]
-  · simp [hn', ofRON, bind, Except.bind, pure, Except.pure]
-
-end
-
-/-! ### the built-in policies (`Gen/Policy.lean`) -/
-
-theorem simple_eq (tf : Nat) : Gen.P.simple tf = simplePolicy tf := by
-  funext r t f
-  unfold Gen.P.simple simplePolicy orderedPolicy
-  by_cases h1 : r > t <;> by_cases h2 : r < t <;> by_cases h3 : f ≥ tf / 2 <;> by_cases h4 : f ≥ tf / 64 <;> simp [h1, h2, h3, h4]
-
-theorem movable_eq (tf : Nat) : Gen.P.movable tf = movablePolicy tf := by
-  funext r t f
-  unfold Gen.P.movable movablePolicy orderedPolicy
-  by_cases h1 : r > t <;> by_cases h2 : r < t <;> by_cases h3 : f ≥ tf / 2 <;> by_cases h4 : f ≥ tf / 64 <;> simp [h1, h2, h3, h4]
-
-theorem eval_eq (pmin pmax gmin gmax : Nat) : Gen.P.eval pmin pmax gmin gmax = evalPolicy pmin pmax gmin gmax := by
-  funext r t f
-  unfold Gen.P.eval evalPolicy orderedPolicy
-  by_cases h1 : r > t <;> by_cases h2 : r < t <;> simp [h1, h2]
 
 end LLFree.GenTree
